@@ -149,9 +149,17 @@ fn enum_files() -> Vec<gen::CorpusFile> {
 }
 
 /// (runs, description) of an exhaustive configuration.
+const CMP_OPS: [&str; 6] = [">=", ">", "<=", "<", "=", "=="];
+const CMP_SIGNS: [&str; 7] = ["", "-", "+", "--", "-+", "+-", " -"];
+const CMP_NUMS: [&str; 18] = [
+    "0", "1", "9223372036854775807", "9223372036854775808", "9223372036854775809", "18446744073709551615", "18446744073709551616",
+    "0x8000000000000000", "0x10", "1e19", "1e400", "1.5", ".5", "5.", "1_000", "0o17", "", "\u{662}",
+];
+
 pub fn enum_total(kind: &str, thorough: bool) -> u64 {
     let files = enum_files();
     match kind {
+        "cmp_forms" => (CMP_OPS.len() * CMP_SIGNS.len() * CMP_NUMS.len()) as u64,
         "truncate_all" => files.iter().filter(|f| f.text.len() <= 2048).map(|f| f.text.len() as u64 + 1).sum(),
         "lose_range_all" => files
             .iter()
@@ -188,7 +196,14 @@ fn damage_string(rng: &mut Rng, s: &str) -> String {
     let n = 1 + rng.below(2);
     for _ in 0..n {
         let len = b.len();
-        match rng.below(6) {
+        match rng.below(7) {
+            6 => {
+                // a delimiter of the string duplicated at another place (or one from the syntax)
+                let delims: Vec<char> = b.iter().copied().filter(|c| "[]().,*'\"=<>-?".contains(*c)).collect();
+                let c = if !delims.is_empty() && rng.chance(2, 3) { *rng.pick(&delims) } else { *rng.pick(&['[', ']', '(', ')', '\'', '"', '*']) };
+                let i = rng.below(len + 1);
+                b.insert(i, c);
+            }
             0 => {
                 let k = rng.below(len + 1);
                 b.truncate(k);
@@ -511,13 +526,21 @@ pub fn generate(kind: &str, seed: u64, run: u64, thorough: bool) -> Scenario {
             // seconds to build, which is slow, not a loop)
             let long = *fr.pick(&[255usize, 256, 257, 1023, 1024, 4095, 4096, 4097]);
             let long_cond = *fr.pick(&[255usize, 256, 257, 4096, 65_535, 65_536]);
-            let (role, s) = match fr.below(14) {
+            let (role, s) = match fr.below(16) {
                 8 => ("condition", vec!["A"; long_cond / 6 + 1].join(" and ")),
                 9 => ("condition", "A".repeat(long_cond)),
                 10 => ("pattern", format!("*{}*", "ab".repeat(long / 2))),
                 11 => ("pattern", format!("?{}", "(a|b)".repeat((long / 5).min(2000)))),
                 12 => ("key", "k".repeat(long)),
                 13 => ("many_identifiers", format!("{}", long.min(4097))),
+                14 | 15 => {
+                    // long text with one multi-byte character at a drawn early offset: code that
+                    // cuts a prefix for a message slices by bytes
+                    let at = *fr.pick(&[15usize, 16, 31, 32, 62, 63, 64, 127, 128, 254, 255, 256]);
+                    let mb = *fr.pick(&["\u{e9}", "\u{65e5}", "\u{1f980}"]);
+                    let body = format!("{}{}{}", "A".repeat(at), mb, "A".repeat(long_cond.max(300)));
+                    (if fr.chance(1, 2) { "condition" } else { "key" }, body)
+                }
                 0 => ("condition", format!("{}A{}", "(".repeat(depth), ")".repeat(depth))),
                 1 => ("condition", format!("{}A", "not ".repeat(depth))),
                 2 => ("condition", format!("{}A{}", "not (".repeat(depth), ")".repeat(depth))),
@@ -530,6 +553,17 @@ pub fn generate(kind: &str, seed: u64, run: u64, thorough: bool) -> Scenario {
             sc.strings = vec![s];
             sc.note = role.to_owned();
             sc.origin = format!("deep nesting {}", depth);
+        }
+        "cmp_forms" => {
+            // every comparison prefix x sign run x number form (the numeric patterns of the
+            // identifier syntax), as a pattern
+            let r = run as usize;
+            let op = CMP_OPS[r % CMP_OPS.len()];
+            let sign = CMP_SIGNS[(r / CMP_OPS.len()) % CMP_SIGNS.len()];
+            let num = CMP_NUMS[(r / (CMP_OPS.len() * CMP_SIGNS.len())) % CMP_NUMS.len()];
+            sc.strings = vec![format!("{}{}{}", op, sign, num)];
+            sc.note = "pattern".to_owned();
+            sc.origin = "comparison forms".to_owned();
         }
         "remnants" => {
             let a = REMNANT_ALPHABET.len() as u64;
@@ -849,7 +883,7 @@ pub fn execute(sc: &Scenario) -> Outcome {
     match sc.kind.as_str() {
         "shapes" => exec_shapes(sc),
         "storage" | "truncate_all" | "lose_range_all" => exec_storage(sc),
-        "text" | "remnants" | "deep" => exec_text(sc),
+        "text" | "remnants" | "deep" | "cmp_forms" => exec_text(sc),
         _ => Outcome::clean(&Digest::new(), Stats::default()),
     }
 }
